@@ -113,6 +113,56 @@ def qualified(run, thorough, process_sets=True):
     return stats
 
 
+DYN_MODEL = ('dynamic A(int k);\ndynamic B();\ndouble y;\nprocess A(int k) { bool y; int[0,7] onlyA; state s0; init s0; }\nprocess B() { int[0,5] y; clock onlyB; state s0; init s0; }\n'
+             'process Main() { state m0, m1; init m0;\n trans m0 -> m1 { guard %s; assign spawn A(1); };\n}\nsystem Main;\n')
+DYN_MEMBER = {('A', 'y'): '(bool)', ('A', 'onlyA'): '(range (int) "0" "7")', ('B', 'y'): '(range (int) "0" "5")', ('B', 'onlyB'): '(clock)'}
+
+
+def dynamic_binders(run, rng, n):
+    """binders that range over dynamic templates (forall / exists / sum (p : T) ... p.member): nested, in sequence, with equal and with different binder names;
+    every p.member must be the member of the template of the innermost enclosing binder named p (read from the type of the member in the dump)"""
+    def gen(depth, env):
+        """-> (text, [(expected type of each p.member in text order)])"""
+        r = rng.random()
+        if depth <= 0 or (env and r < 0.35):
+            if not env:
+                return 'true', []
+            nm = rng.choice(sorted(env))
+            t = env[nm]
+            mem = rng.choice([m for (tt, m) in DYN_MEMBER if tt == t])
+            ty = DYN_MEMBER[(t, mem)]
+            txt = {'(bool)': '%s.%s', '(clock)': '%s.%s >= 0'}.get(ty, '%s.%s > 0') % (nm, mem)
+            return txt, [ty]
+        if r < 0.75:
+            q, nm, t = rng.choice(['forall', 'exists']), rng.choice(['p', 'p', 'q']), rng.choice(['A', 'B'])
+            body, exp = gen(depth - 1, dict(env, **{nm: t}))
+            return '%s (%s : %s)(%s)' % (q, nm, t, body), exp
+        a, ea = gen(depth - 1, env)
+        b, eb = gen(depth - 1, env)
+        return '(%s) && (%s)' % (a, b), ea + eb
+    cases = []
+    for _ in range(n):
+        txt, exp = gen(rng.choice([2, 3, 3, 4]), {})
+        if exp:
+            cases.append((txt, exp))
+    j = vlib.Job()
+    for k, (txt, exp) in enumerate(cases):
+        j.case('d%d' % k, fork=True).cmd('BIND 1').model('xtaraw', DYN_MODEL % txt).dump('errors').dump('doc').end()
+    rr = vlib.run_jobs(j)
+    for k, (txt, exp) in enumerate(cases):
+        c = rr['d%d' % k]
+        if c['status'] != 'ok' or len(c['cmds']) < 4:
+            run.fail('parser crashed on nested dynamic quantifiers (%s)' % c['status'], dict(guard=txt, status=c['status']), shape='crash:dynamic-binders')
+            continue
+        errs = [l for l in c['cmds'][2][2] if l.startswith('error')]
+        g = next((l for l in c['cmds'][3][2] if ' edge ' in l and 'guard=' in l), '')
+        got = re.findall(r'\(DYNAMIC_EVAL \(IDENTIFIER \w+@\w+:(\((?:[^()]|\([^()]*\))*\))\)', g)
+        if errs or got != exp:
+            run.fail('guard %r: the members selected through binders over dynamic templates have the types %s, the innermost enclosing binders give %s%s' % (txt, got, exp, '; ' + errs[0][:100] if errs else ''),
+                     dict(guard=txt, observed=got, expected=exp, errors=errs[:2]), shape='binding:dynamic-binder:' + ('rejected' if errs else 'wrong-template'))
+    return len(cases)
+
+
 def check(run):
     thorough = run.tier == 'thorough'
     rng = run.rng
@@ -166,6 +216,7 @@ def check(run):
         if len(samples) < 1 and len(xml) < 1800:
             samples.append(dict(tree=tree, xml=xml, bindings=S))
     dstats = qualified(run, thorough)
+    dstats['dynamic_binder_guards'] = dynamic_binders(run, rng, 400 if thorough else 60)
     stats.update(dstats)
     if mism:
         run.tie_broken('scope generator / dump reader out of step', mism[:3] + [dict(total=len(mism))])
